@@ -48,7 +48,7 @@ var (
 	coopActive *coop
 )
 
-const coopWatchdog = 5 * time.Second
+const coopWatchdog = 30 * time.Second
 
 // coopYieldAfterUnlock makes the release of a hooked mutex a scheduling point too.
 var coopYieldAfterUnlock = false
